@@ -374,6 +374,73 @@ PROPS["C19"] = {
 }
 
 
+def parse_oracle(pid, res, driver):
+    findings = []
+    data = res.stream_data.get("PARSE")
+    counts = {"accepted_mutants": 0, "decode_panics_on_accepted": 0, "orig": 0, "mutants": 0}
+    if data:
+        for c, o in zip(data["cases"], data["impl"].get("debug", [])):
+            t = c.split(" ")
+            orig_hash, kind, hx = t[2], t[3], t[4]
+            ot = o.split(" ")
+            verdict = ot[1] if len(ot) > 1 else "no-output"
+            short = {"case": c[:4000], "impl": o[:300]}
+            if verdict in ("panic", "no-output"):
+                if pid == "C16":
+                    findings.append(dict(short, why="the stream parser panicked (or aborted) on this input"))
+                continue
+            m = re.search(r"v=(\S+) dec=(\S+) cb=(\d+)", o)
+            if kind == "orig":
+                counts["orig"] += 1
+                if pid == "C15":
+                    ok = verdict == "ok" and len(ot) > 2 and ot[2] == hx and m and m.group(1) == "1" and m.group(2) == orig_hash and int(m.group(3)) == 4 * len(hx)
+                    if not ok:
+                        findings.append(dict(short, why="parsing an emitted stream did not consume/verify/re-serialise/decode to the original"))
+            else:
+                counts["mutants"] += 1
+                if verdict == "ok" and kind in ("flip", "burst") and m:
+                    counts["accepted_mutants"] += 1
+                    if m.group(2) == "panic":
+                        counts["decode_panics_on_accepted"] += 1
+                    elif m.group(2) != orig_hash and pid == "C16":
+                        findings.append(dict(short, why="a stream with a %s inside a frame was accepted and decodes to different audio" % kind))
+    res.extra["parse_counts"] = counts
+    return findings
+
+
+def cmp3(line):
+    t = line.split(" ")
+    return " ".join(t[:2]) if len(t) > 1 and t[1] == "err" else " ".join(t[:3])
+
+
+PARSE_STREAM = {"name": "PARSE", "quick": 6000, "thorough": 150000, "profiles": ["debug"], "cmp": cmp3,
+                "nontrivial": lambda c, o: c.split(" ")[3] in ("flip", "burst", "trunc"),
+                "thorough_env": {"VERIF_PARSE_EXHAUSTIVE": "1"}}
+PARSE_RULE = ("PARSE: small emitted streams (1-3 channels, 8/16/24 bits, blocks 32..128, 1-2 frames, every subframe kind via random "
+              "verified configurations) and mutants of them: single-bit flips at random positions inside the frames (EVERY bit position "
+              "of every frame in the thorough tier), 2..8-bit bursts at random positions, truncation at a random byte, single-bit flips "
+              "in the metadata, random byte strings with and without the fLaC marker. Observable: verdict (ok/err/panic), re-serialised "
+              "bytes; for accepted inputs also verify, decoded-audio hash and count_bits. Non-trivial = a mutant inside a frame or a "
+              "truncation.")
+
+PROPS["C15"] = {
+    "coq": "theories/Props/C15.v",
+    "theorems": ["C15_number_parse_partial"],
+    "streams": [PARSE_STREAM], "rule": PARSE_RULE,
+    "oracle": parse_oracle,
+    "assumptions": ["PARTIAL: only the number coding is proved through the parser model; the whole-tree inverse is decided per run",
+                    "parser model (Model/Parser.v) tied to component/parser.rs by the PARSE stream (verdict + re-serialised bytes)"],
+}
+PROPS["C16"] = {
+    "coq": "theories/Props/C16.v",
+    "theorems": ["C16_crc16_detects_bursts", "C16_crc8_detects_bursts", "C16_crc_is_bitwise"],
+    "streams": [PARSE_STREAM], "rule": PARSE_RULE,
+    "oracle": parse_oracle,
+    "assumptions": ["PARTIAL: bursts that change the number of bits consumed by the subframes (CRC window moves) are enumerated, not proved",
+                    "a panic inside Decode on an accepted-but-malformed tree is counted (parse_counts) but is not a violation of this property"],
+}
+
+
 def check_coq(pid, spec, res):
     """Build the proofs; returns True when the property's theorems are all checked."""
     closure = fv.dep_closure(spec["coq"])
@@ -432,8 +499,11 @@ def run_streams(pid, spec, tier, seed, res, replay_cases=None):
     seen = set()
     for st in spec["streams"]:
         n = st[tier]
+        genv = dict(fv.ENV)
+        if tier == "thorough":
+            genv.update(st.get("thorough_env", {}))
         cases = list(replay_cases) if replay_cases is not None else \
-            fv.corpus_cases(st["name"]) + fv.gen_cases(bins["debug"], st["name"], seed, n)
+            fv.corpus_cases(st["name"]) + fv.gen_cases(bins["debug"], st["name"], seed, n, env=genv)
         cases = [c for c in cases if c.split(" ", 1)[0] == st["name"]]
         if not cases:
             continue
@@ -461,7 +531,8 @@ def run_streams(pid, spec, tier, seed, res, replay_cases=None):
                                 res.samples.append({"case": c[:400], "impl": io[:300]})
                     kind = (io.split(" ") + ["?", "?"])[1]
                     dist[st["name"] + ":" + kind] = dist.get(st["name"] + ":" + kind, 0) + 1
-                if io != mo:
+                cmpf = st.get("cmp")
+                if (cmpf(io) != cmpf(mo)) if cmpf else (io != mo):
                     disagreements.append({"stream": st["name"], "profile": prof, "case": c, "impl": io, "model": mo})
     res.extra["distribution"] = dist
     res.disagreements = len(disagreements)
